@@ -7,12 +7,15 @@ KEY_DIR = "/var/lib/azure-proxy-agent/keys"
 
 
 def needles(secret_hex):
-    raw = bytes.fromhex(secret_hex)
     out = set()
     low, up = secret_hex.lower().encode(), secret_hex.upper().encode()
     for s in (low, up):
         for i in range(0, len(s) - 15):
             out.add(s[i:i + 16])
+    try:
+        raw = bytes.fromhex(secret_hex)
+    except ValueError:
+        return out       # a key value that is not hex (malformed key document): only its text can leak
     out.add(raw)
     out.add(raw[:16]); out.add(raw[16:])
     b64 = base64.b64encode(raw)
@@ -159,6 +162,7 @@ def real_history(args, scratch):
                 # a malformed key response that nevertheless carries a secret the host issued ("malformed key responses" in the
                 # quantifier): the guest cannot use it, and must not spread it either
                 ws.fault("acquire", {"kind": "mangled-key-document", "how": r.choice(["wrong-type", "missing-member", "truncated", "trailing", "extra-member"])})
+                ws.fault("acquire", {"kind": "mangled-key-document", "how": r.choice(["non-hex-key", "odd-length-key"])})
                 ws.latched = None
                 wait(lambda: ws.latched is not None, 8)
                 latched_sync()
@@ -353,7 +357,7 @@ STEPS = ["traffic", "provision", "fault-status", "rotate", "fault-acquire", "fau
 
 
 def run(tier, rep):
-    rep.coverage["rule"] = ("taint search: secrets = every key the mock host latched (attestation accepted) and every key it delivered inside a malformed key document (wrong member type, missing/extra member, truncated, trailing bytes); needles = the 64 hex digits in either case, every 16-digit window, the raw 32 bytes and halves, base64; "
+    rep.coverage["rule"] = ("taint search: secrets = every key the mock host latched (attestation accepted) and every key it delivered inside a malformed key document (wrong member type, missing/extra member, truncated, trailing bytes, key value that is not hex / of odd length); needles = the 64 hex digits in either case, every 16-digit window, the raw 32 bytes and halves, base64; "
                             "haystack = all files under the log/event/status/provision locations and the whole scratch root, stdout, stderr, the captured /dev/console, every byte returned to local clients "
                             "(proxied responses, /provision answers, refusals), telemetry bodies at the mock and upstream request bytes; only files inside the key directory may contain a needle. histories: real binary "
                             "(latch, traffic, /provision queries, status/acquire/attest faults, rotation, disable/enable, restart) and a shim-hosted pipeline with logger/reader/status task on short intervals. plus "
